@@ -18,30 +18,31 @@ Notation ctp := Chain.ctp.
 Notation cst := (@cstate Chain.link).
 
 Section CVal.
-  Variable P : N -> Prop.
+  (* P id v: the server of this node has produced v for request id *)
+  Variable P : N -> N -> Prop.
   Implicit Types s : cst.
 
-  Definition sl_ok (x : slot) : Prop := forall v, sl_val x = Some (OReply v) -> P v.
-  Definition cl_ok s : Prop := forall id x, In (id, x) (slots s) -> sl_ok x.
+  Definition sl_ok (id : N) (x : slot) : Prop := forall v, sl_val x = Some (OReply v) -> P id v.
+  Definition cl_ok s : Prop := forall id x, In (id, x) (slots s) -> sl_ok id x.
   Definition lk_ok (l : Chain.link) : Prop :=
-    forall r v, In r (Chain.l_s2c l) -> r_body r = BOk v -> P v.
+    forall r v, In r (Chain.l_s2c l) -> r_body r = BOk v -> P (r_id r) v.
   Definition cv s : Prop := cl_ok s /\ lk_ok (tr s).
 
   Lemma cv_eq s s' : slots s' = slots s -> tr s' = tr s -> cv s -> cv s'.
   Proof. intros E1 E2 [A B]. split; [unfold cl_ok; rewrite E1; exact A|rewrite E2; exact B]. Qed.
 
-  Lemma sl_ok_get s id : cl_ok s -> sl_ok (get_slot s id).
+  Lemma sl_ok_get s id : cl_ok s -> sl_ok id (get_slot s id).
   Proof.
     intro A. unfold get_slot. destruct (alookup id (slots s)) as [x|] eqn:E.
     - eapply A, alookup_in, E.
     - intros v H. discriminate.
   Qed.
-  Lemma cv_set_slot s id x : sl_ok x -> cv s -> cv (set_slot s id x).
+  Lemma cv_set_slot s id x : sl_ok id x -> cv s -> cv (set_slot s id x).
   Proof.
     intros Hx [A B]. split; [|exact B]. intros id' x' H. unfold set_slot in H. cbn [slots upd_slots] in H.
-    apply In_aset in H. destruct H as [[_ ->]|[H _]]; [exact Hx|eapply A, H].
+    apply In_aset in H. destruct H as [[-> ->]|[H _]]; [exact Hx|eapply A, H].
   Qed.
-  Lemma cv_slot_send s id o : (forall v, o = OReply v -> P v) -> cv s -> cv (slot_send s id o).
+  Lemma cv_slot_send s id o : (forall v, o = OReply v -> P id v) -> cv s -> cv (slot_send s id o).
   Proof.
     intros Ho H. pose proof (sl_ok_get s id (proj1 H)) as G. unfold slot_send.
     destruct (sl_rx_closed _); apply cv_set_slot; try exact H; intros v E; cbn [sl_val] in E.
@@ -83,7 +84,7 @@ Section CVal.
 
   (* ---------------------------------------------------------------- the user side *)
   Lemma cv_poll_slot s i id r s' :
-    poll_slot s i id = (r, s') -> cv s -> cv s' /\ forall v, r = CDone (OReply v) -> P v.
+    poll_slot s i id = (r, s') -> cv s -> cv s' /\ forall v, r = CDone (OReply v) -> P id v.
   Proof.
     intros E H. pose proof (sl_ok_get s id (proj1 H)) as G. unfold poll_slot in E.
     destruct (sl_val (get_slot s id)) as [o|] eqn:EV.
@@ -99,22 +100,31 @@ Section CVal.
     apply cv_set_phase, cv_push_cancel, cv_slot_rx_close, cv_slot_tx_drop, H.
   Qed.
   Lemma cv_enqueue s i c id tc r s' :
-    enqueue s i c id tc = (r, s') -> cv s -> cv s' /\ forall v, r = CDone (OReply v) -> P v.
+    enqueue s i c id tc = (r, s') -> cv s -> cv s' /\ forall v, r = CDone (OReply v) -> P id v.
   Proof.
     unfold enqueue. intros E H. eapply cv_poll_slot; [exact E|].
     apply cv_set_phase. eapply cv_eq; [..|exact H]; reflexivity.
   Qed.
 
+  (* the id under which call i is (being) registered *)
+  Definition call_id s (c : call) : N := match c_phase c with PNew => next_id s | _ => c_id c end.
+
   Lemma cv_poll_call s i r s' :
-    poll_call s i = (r, s') -> cv s -> cv s' /\ forall v, r = CDone (OReply v) -> P v.
+    poll_call s i = (r, s') -> cv s ->
+    cv s' /\ forall v, r = CDone (OReply v) ->
+              exists c, nth_error (calls s) i = Some c /\ P (call_id s c) v.
   Proof.
     unfold poll_call. intros E H. destruct (nth_error (calls s) i) as [c|].
     2: { injection E as <- <-. split; [exact H|intros v [=]]. }
     assert (FS : forall sx id, cv sx -> fail_shutdown sx i id = (r, s') ->
-                 cv s' /\ forall v, r = CDone (OReply v) -> P v).
+                 cv s' /\ forall v, r = CDone (OReply v) -> exists c0, Some c = Some c0 /\ P (call_id s c0) v).
     { intros sx id Hx Ex. pose proof (cv_fail_shutdown sx i id Hx) as K. rewrite Ex in K.
       split; [exact K|]. unfold fail_shutdown in Ex. injection Ex as <- _. intros v [=]. }
-    destruct (c_phase c).
+    assert (WR : forall id, call_id s c = id ->
+                 (cv s' /\ forall v, r = CDone (OReply v) -> P id v) ->
+                 cv s' /\ forall v, r = CDone (OReply v) -> exists c0, Some c = Some c0 /\ P (call_id s c0) v).
+    { intros id <- [A B]. split; [exact A|]. intros v Ev. exists c. split; [reflexivity|apply B, Ev]. }
+    unfold call_id in WR. destruct (c_phase c).
     - set (s0 := with_id _ i c (next_id s)) in *. set (s1 := set_slot s0 (next_id s) slot0) in *.
       assert (H1 : cv s1).
       { apply cv_set_slot; [intros v [=]|]. eapply cv_eq; [..|exact H]; reflexivity. }
@@ -122,13 +132,13 @@ Section CVal.
       destruct (permits s1) as [|p].
       + injection E as <- <-. split; [|intros v [=]].
         apply cv_set_phase. eapply cv_eq; [..|exact H1]; reflexivity.
-      + eapply cv_enqueue; [exact E|]. eapply cv_eq; [..|exact H1]; reflexivity.
+      + apply (WR (next_id s) eq_refl). eapply cv_enqueue; [exact E|]. eapply cv_eq; [..|exact H1]; reflexivity.
     - injection E as <- <-. split; [exact H|intros v [=]].
     - destruct (rx_closed s).
       + eapply FS; [|exact E]. eapply cv_eq; [..|exact H]; reflexivity.
-      + eapply cv_enqueue; eassumption.
+      + apply (WR (c_id c) eq_refl). eapply cv_enqueue; eassumption.
     - eapply FS; eassumption.
-    - eapply cv_poll_slot; eassumption.
+    - apply (WR (c_id c) eq_refl). eapply cv_poll_slot; eassumption.
     - injection E as <- <-. split; [exact H|intros v [=]].
     - injection E as <- <-. split; [exact H|intros v [=]].
     - injection E as <- <-. split; [exact H|intros v [=]].
@@ -169,7 +179,7 @@ Section CVal.
   Qed.
   Lemma cv_do_next s r s' :
     do_next ctp s = (r, s') -> cv s ->
-    cv s' /\ match r with RItem x => forall v, r_body x = BOk v -> P v | _ => True end.
+    cv s' /\ match r with RItem x => forall v, r_body x = BOk v -> P (r_id x) v | _ => True end.
   Proof.
     intros E [A B]. pose proof (XFrame_do_next ctp _ _ _ E) as F.
     assert (A' : cl_ok s') by (unfold cl_ok; rewrite (xf_slots _ _ F); exact A).
@@ -193,7 +203,7 @@ Section CVal.
   Qed.
 
   Lemma cv_complete_request s id o :
-    (forall v, o = OReply v -> P v) -> cv s -> cv (snd (complete_request s id o)).
+    (forall v, o = OReply v -> P id v) -> cv s -> cv (snd (complete_request s id o)).
   Proof.
     intros Ho H. unfold complete_request. destruct (alookup id (inflight s)); cbn [snd]; [|exact H].
     apply cv_slot_send; [exact Ho|]. eapply cv_eq; [..|exact H]; reflexivity.
@@ -302,10 +312,10 @@ Section CVal.
   Qed.
 
   Lemma cv_fold_slot_send {B} (g : B -> N) o (l : list B) s :
-    (forall v, o = OReply v -> P v) -> cv s -> cv (fold_left (fun acc p => slot_send acc (g p) o) l s).
+    (forall v, o = OReply v -> False) -> cv s -> cv (fold_left (fun acc p => slot_send acc (g p) o) l s).
   Proof.
     intro Ho. revert s; induction l as [|x r IH]; intros s H; cbn; [exact H|].
-    apply IH, cv_slot_send; assumption.
+    apply IH, cv_slot_send; [intros v Ev; destruct (Ho v Ev)|exact H].
   Qed.
   Lemma cv_drain_loop f a : forall s, cv s -> cv (snd (drain_loop f a s)).
   Proof.
@@ -344,15 +354,18 @@ Section CVal.
   (* every op of the client model; what a call resolves with was in its slot *)
   Lemma cv_step s o s' os :
     step ctp fuel_of s o = (s', os) -> (forall g, o <> Tr g) -> cv s ->
-    cv s' /\ forall v, In (OCall (CDone (OReply v))) os -> P v.
+    cv s' /\ forall v, In (OCall (CDone (OReply v))) os ->
+              exists i c, o = PollCall i /\ nth_error (calls s) i = Some c /\ P (call_id s c) v.
   Proof.
     intros E HT H. destruct o; cbn [step] in E.
     - injection E as <- <-. split; [|intros v []]. destruct (nth_error _ _) as [[|]|]; exact H.
     - injection E as <- <-. split; [|intros v []]. destruct (nth_error _ _) as [[|]|]; exact H.
     - injection E as <- <-. split; [|intros v []]. eapply cv_eq; [..|exact H]; reflexivity.
     - destruct (poll_call s i) as [r s1] eqn:EP. destruct (cv_poll_call _ _ _ _ EP H) as [K1 K2].
-      injection E as <- <-. split; [exact K1|]. intros v Hin. apply K2.
-      destruct r; cbn in Hin; try contradiction; destruct Hin as [Hin|[]]; congruence.
+      injection E as <- <-. split; [exact K1|]. intros v Hin.
+      destruct (K2 v) as (c & Ec & Pc).
+      { destruct r; cbn in Hin; try contradiction; destruct Hin as [Hin|[]]; congruence. }
+      exists i, c. split; [reflexivity|]. split; assumption.
     - injection E as <- <-. split; [|intros v []]. destruct (option_map _ _) as [[]|];
         try apply cv_guard_cancel, cv_guard_close, H. exact H.
     - injection E as <- <-. split; [|intros v []]. destruct (option_map _ _) as [[]|]; try apply cv_guard_close, H. exact H.
@@ -372,7 +385,7 @@ Section CVal.
   Qed.
 End CVal.
 
-Lemma cv_mono (P P' : N -> Prop) (s : cst) : (forall v, P v -> P' v) -> cv P s -> cv P' s.
+Lemma cv_mono (P P' : N -> N -> Prop) (s : cst) : (forall id v, P id v -> P' id v) -> cv P s -> cv P' s.
 Proof.
   intros M [A B]. split.
   - intros id x H v E. apply M. eapply A; eassumption.
